@@ -1,5 +1,355 @@
-"""Shared Engine-A harness over mici.samplers (C13, C14, C15, C16)."""
+"""Shared Engine-A harness over mici/samplers.py (C13, C14, C15, C16): the real `_sample_chain`,
+`_sample_chains_sequential`, `_collate_chain_outputs`, `_finalize_adapters` and
+`MarkovChainMonteCarloMethod.sample_chains` bodies are interpreted; transitions, adapters, trace functions,
+progress bars, array allocation and the stager are contract stubs recording a ghost log.
+"""
+from __future__ import annotations
+
+import z3
+
+from .. import core
+from ..models import Opaque
+from ..pyvc import (Exec, Interp, LoopSpec, Namespace, Native, Obj, OutsideSubset, PathEnd, PyRaise, TypeTag, exc_name, is_z3, lift,
+                    make_exc)
+from .integ_model import install_std
+
+MOD = "mici.samplers"
+
+
+class RowArray:
+    """Ghost array: records item assignments (row index expression, value); rows never written keep `fill`."""
+
+    def __init__(self, name, length=None, fill="fill", memmap=False):
+        self.name, self.length, self.fill = name, length, fill
+        self.writes = []
+        self.flushed = 0
+        self.memmap = memmap
+
+    def _pv_setitem(self, ex, key, val):
+        self.writes.append((key, val, ex.ctx.ghost.get("iter_tag")))
+
+    def _pv_getattr(self, ex, name):
+        if name == "flush" and self.memmap:
+            def flush(ex2):
+                self.flushed += 1
+            return Native(flush, "flush")
+        raise PyRaise(make_exc(ex.interp, "AttributeError", name))
+
+
+class ChainIter:
+    """Contract of a chain iterator (ProgressBar over range(n)): context manager; yields (0, d0), (1, d1), ... in order."""
+
+    def __init__(self, n):
+        self.n = n
+        self.entered = self.exited = 0
+        self.sequence = None
+
+    def _pv_getattr(self, ex, name):
+        if name == "__enter__":
+            def enter(ex2):
+                self.entered += 1
+                return self
+            return Native(enter, "__enter__")
+        if name == "__exit__":
+            def exit_(ex2, *a):
+                self.exited += 1
+                return False
+            return Native(exit_, "__exit__")
+        if name == "sequence":
+            return self.sequence
+        raise PyRaise(make_exc(ex.interp, "AttributeError", name))
+
+    def _pv_setattr(self, ex, name, v):
+        if name == "sequence":
+            self.sequence = v
+            return
+        raise OutsideSubset(f"ChainIter.{name} assignment")
+
+    def _pv_generic(self, ex):
+        idx = ex.ctx.ghost["loop_index"]
+        n = lift(self.n)
+
+        def cond():
+            return ex.ctx.branch(z3.And(idx >= 0, idx < n))
+
+        def bind():
+            return (idx, {})
+        return cond, bind
+
+    def _pv_len(self, ex):
+        return self.n
+
+
+def make_interp(run):
+    it = Interp(run, timeout_ms=20000)
+    it.max_paths = 100000
+    install_std(it)
+    from ..pyvc import TypeTag
+    never = lambda name: TypeTag(name, lambda o: False)  # noqa: E731
+    it.ext_modules["numpy"] = Namespace("np", memmap=never("memmap"), ndarray=never("ndarray"),
+                                        random=Namespace("np.random", RandomState=never("RandomState"), Generator=never("Generator")))
+    def _cm(v=None):
+        return Opaque("nullcontext", __enter__=Native(lambda e: v, "enter"), __exit__=Native(lambda e, *a: False, "exit"))
+    it.ext_modules["contextlib"] = Namespace("contextlib", nullcontext=Native(lambda ex_, v=None: _cm(v), "nullcontext"), ExitStack=None,
+                                             contextmanager=Native(lambda ex_, f: f, "contextmanager"))
+    it.ext_modules["tempfile"] = Namespace("tempfile", TemporaryDirectory=Native(lambda ex_: _cm("TMPDIR"), "TemporaryDirectory"))
+    it.ext_modules["pathlib"] = Namespace("pathlib", Path=never("Path"))
+    it.ext_modules["logging"] = Namespace("logging", getLogger=Native(lambda ex, *a: Opaque("logger"), "getLogger"))
+    return it
+
+
+class ChainWorld:
+    def __init__(self, it, ctx, with_adapters, with_traces, with_stats, memmap=False, monitor=False):
+        self.it, self.ctx = it, ctx
+        self.mod = it.module(MOD)
+        self.ex = Exec(it, ctx, self.mod, self.mod.env, "harness")
+        self.log = []  # ghost log of contract-stub events
+        self.states = []  # every state object produced (init + transition results)
+        w = self
+        cs = it.module("mici.states").resolve("ChainState", ctx)
+        self.init_state = self.ex.call(cs, [], {"pos": "q_init", "mom": "p_init", "dir": 1})
+        self.states.append(self.init_state)
+        self.rng = Opaque("rng")
+
+        def mk_transition(key, stat_keys, variables):
+            def sample(ex, state, rng):
+                k = len([e for e in w.log if e[0] == "sample" and e[1] == key])
+                new = ex.call(cs, [], {"pos": f"q<{key}#{len(w.log)}>", "mom": f"p<{key}#{len(w.log)}>", "dir": 1})
+                stats = None if stat_keys is None else {sk: f"{key}.{sk}@{len(w.log)}" for sk in stat_keys}
+                w.log.append(("sample", key, state, rng, new, stats, ex.ctx.ghost.get("iter_tag")))
+                w.states.append(new)
+                return (new, stats)
+            types = None if stat_keys is None else {sk: ("dtype", "fillval") for sk in stat_keys}
+            return Opaque(key, sample=Native(sample, f"{key}.sample"), state_variables=variables, statistic_types=types)
+        self.transitions = {"momentum_transition": mk_transition("momentum_transition", None, {"mom"}),
+                            "integration_transition": mk_transition("integration_transition", ["n_step", "accept_stat"], {"pos", "mom", "dir"})}
+
+        def mk_adapter(name):
+            def initialize(ex, state, transition):
+                st = {"adapter": name, "for": transition}
+                w.log.append(("initialize", name, state, transition))
+                return st
+
+            def update(ex, ast, state, stats, transition):
+                w.log.append(("update", name, ast, state, stats, transition, ex.ctx.ghost.get("iter_tag")))
+            return Opaque(name, initialize=Native(initialize, "initialize"), update=Native(update, "update"))
+        self.adapters = {"integration_transition": [mk_adapter("adapterA"), mk_adapter("adapterB")]} if with_adapters else None
+
+        def mk_trace(name, keys):
+            def tf(ex, state):
+                w.log.append(("trace", name, state, ex.ctx.ghost.get("iter_tag")))
+                return {k: f"{k}({name})@{len(w.log)}" for k in keys}
+            return Native(tf, name)
+        self.trace_funcs = [mk_trace("tf1", ["pos", "hamiltonian"]), mk_trace("tf2", ["extra"])] if with_traces else None
+        self.chain_traces = {k: RowArray("trace:" + k, memmap=memmap) for k in ("pos", "hamiltonian", "extra")} if with_traces else None
+        self.chain_stats = {"integration_transition": {k: RowArray("stat:" + k, memmap=memmap) for k in ("n_step", "accept_stat")}} if with_stats else None
+        self.monitor = {"integration_transition": ["accept_stat"]} if monitor else None
+
+
+def sample_chain_contract(run, it, prop):
+    """C13: row-exact loop invariant of _sample_chain; C15: with a KeyboardInterrupt possible at every call in the loop."""
+    q = "_sample_chain"
+    run.function("mici.samplers._sample_chain")
+    run.function("mici.samplers._update_chain_stats")
+    run.function("mici.samplers._flush_memmap_chain_data")
+    P = "samplers._sample_chain"
+    interrupt = prop == "C15"
+
+    def havoc(ex):
+        c = ex.ctx
+        i = c.fresh("sample_index", "int")
+        c.ghost["loop_index"] = i
+        w = c.ghost["world"]
+        if c.choose(2, "first-iteration") == 0:
+            c.assume(i == 0)
+        else:
+            c.assume(i >= 1)
+            # arbitrary earlier iterations: the current state is some state produced earlier (ghost), rows < i are written
+            cs = it.module("mici.states").resolve("ChainState", c)
+            prev = ex.call(cs, [], {"pos": "q<earlier>", "mom": "p<earlier>", "dir": 1})
+            w.states.append(prev)
+            ex.env.set("state", prev)
+            ex.env.set("sample_index", i - 1)
+        c.ghost["iter_tag"] = "generic"
+        c.ghost["body_start"] = len(w.log)
+        c.ghost["state_at_body_start"] = ex.env.lookup("state")
+        for arr in w.all_arrays:
+            arr.writes_before = len(arr.writes)
+
+    def inv(ex):
+        i = lift(ex.ctx.ghost.get("loop_index", 0))
+        return z3.And(i >= 0, i <= z3.Int("n_iter"))
+
+    def check_iteration(ctx, w, off, interrupted_at=None):
+        """obligations on the generic iteration (events after body_start)"""
+        i = ctx.ghost["loop_index"] if interrupted_at is None else ctx.ghost["loop_index"]
+        idx = ctx.ghost["generic_index"]
+        evs = w.log[ctx.ghost["body_start"]:]
+        samples = [e for e in evs if e[0] == "sample"]
+        state0 = ctx.ghost["state_at_body_start"]
+        if interrupted_at is None:
+            order = [e[1] for e in samples] == list(w.transitions)
+            ctx.run.ob(P + "/every-transition-sampled-once-in-order", core.DISCHARGED if order else core.FAILED, "pyvc",
+                       detail="" if order else str([e[1] for e in samples]), text="each iteration applies every transition once, in dictionary order")
+        # state threading
+        cur = state0
+        threaded = True
+        for e in samples:
+            if e[2] is not cur or e[3] is not w.rng:
+                threaded = False
+            cur = e[4]
+        ctx.run.ob(P + "/state-threaded-through-transitions", core.DISCHARGED if threaded else core.FAILED, "pyvc",
+                   detail="" if threaded else "a transition was not applied to the previous transition's output state / with the chain's rng",
+                   text="transition k receives the state returned by transition k-1 and the chain's own rng")
+        row = idx + off
+        # statistics rows
+        if w.chain_stats is not None:
+            for e in samples:
+                key, stats = e[1], e[5]
+                if stats is None:
+                    continue
+                for sk, arr in w.chain_stats[key].items():
+                    new = arr.writes[arr.writes_before:]
+                    if interrupted_at is None or new:
+                        okn = len(new) == 1
+                        ctx.run.ob(P + "/one-stat-write-per-iteration", core.DISCHARGED if okn else core.FAILED, "pyvc",
+                                   detail="" if okn else f"{arr.name}: {len(new)} writes in one iteration")
+                        if new:
+                            ctx.prove(P + "/stat-row-index", lift(new[0][0]) == row, text="statistics are written at row sample_index + sampling_index_offset")
+                            okv = new[0][1] == stats[sk]
+                            ctx.run.ob(P + "/stat-row-value", core.DISCHARGED if okv else core.FAILED, "pyvc",
+                                       detail="" if okv else f"{arr.name}[row] = {new[0][1]} but this iteration's {key} statistics are {stats[sk]}",
+                                       text="the row holds this iteration's statistic of the same transition and key")
+        # trace rows
+        if w.chain_traces is not None and w.trace_funcs is not None:
+            traces = [e for e in evs if e[0] == "trace"]
+            if interrupted_at is None:
+                okt = [e[1] for e in traces] == ["tf1", "tf2"] and all(e[2] is cur for e in traces)
+                ctx.run.ob(P + "/traces-computed-from-post-iteration-state", core.DISCHARGED if okt else core.FAILED, "pyvc",
+                           detail="" if okt else f"trace functions {[e[1] for e in traces]} applied to a state that is not the state after the last transition",
+                           text="trace functions are applied, after all transitions of the iteration, to the resulting state")
+            for k, arr in w.chain_traces.items():
+                new = arr.writes[arr.writes_before:]
+                if interrupted_at is None:
+                    okn = len(new) == 1
+                    ctx.run.ob(P + "/one-trace-write-per-iteration", core.DISCHARGED if okn else core.FAILED, "pyvc",
+                               detail="" if okn else f"{arr.name}: {len(new)} writes")
+                for wr in new:
+                    ctx.prove(P + "/trace-row-index", lift(wr[0]) == row, text="traces are written at row sample_index + sampling_index_offset")
+                    okv = isinstance(wr[1], str) and wr[1].startswith(k + "(")
+                    ctx.run.ob(P + "/trace-row-value", core.DISCHARGED if okv else core.FAILED, "pyvc", detail="" if okv else f"{arr.name} <- {wr[1]}")
+        elif w.chain_traces is None or w.trace_funcs is None:
+            nt = [e for e in evs if e[0] == "trace"]
+            ctx.run.ob(P + "/no-tracing-when-disabled", core.DISCHARGED if not nt else core.FAILED, "pyvc", detail="" if not nt else "trace function called although tracing is off")
+        # adapters
+        ups = [e for e in evs if e[0] == "update"]
+        if w.adapters is not None and interrupted_at is None:
+            integ = [e for e in samples if e[1] == "integration_transition"]
+            oku = [e[1] for e in ups] == ["adapterA", "adapterB"] and all(e[3] is integ[0][4] and e[4] is integ[0][5] and e[5] is w.transitions["integration_transition"] for e in ups)
+            ctx.run.ob(P + "/adapters-updated-with-this-iterations-state-and-stats", core.DISCHARGED if oku else core.FAILED, "pyvc",
+                       detail="" if oku else str([(e[1]) for e in ups]))
+            oks = all(e[2]["adapter"] == e[1] for e in ups)
+            ctx.run.ob(P + "/adapter-state-paired-with-its-adapter", core.DISCHARGED if oks else core.FAILED, "pyvc", detail="" if oks else "adapter states mixed up")
+        if w.adapters is None:
+            ctx.run.ob(P + "/no-adapter-update-without-adapters", core.DISCHARGED if not ups else core.FAILED, "pyvc",
+                       detail="" if not ups else "adapter.update called with adapters=None",
+                       text="adapters=None => no adapter call (transition parameters are not written by _sample_chain)")
+
+    roots = [[a, t, s, m] for a in range(2) for t in range(2) for s in range(2) for m in range(2)]
+
+    def h(ctx):
+        with_ad, with_tr, with_st, mm = (bool(ctx.choose(2, x)) for x in ("adapters", "traces", "stats", "memmap"))
+        w = ChainWorld(it, ctx, with_ad, with_tr, with_st, memmap=mm)
+        ctx.ghost["world"] = w
+        w.all_arrays = ([a for a in w.chain_traces.values()] if w.chain_traces else []) + \
+                       ([a for d in (w.chain_stats or {}).values() for a in d.values()])
+        for a in w.all_arrays:
+            a.writes_before = 0
+        n = z3.Int("n_iter")
+        off = z3.Int("sampling_index_offset")
+        ctx.assume(n >= 0)
+        ctx.assume(off >= 0)
+        chain_it = ChainIter(n)
+        armed = {"on": False, "fired": False}
+
+        def hook(ex, f, args, kwargs):
+            # C15: a KeyboardInterrupt may arrive at any call made inside the sampling loop (at most one per path)
+            if not interrupt or not armed["on"] or armed["fired"]:
+                return
+            if ex.ctx.ghost.get("iter_tag") != "generic":
+                return
+            if ex.ctx.choose(2, "interrupt-here") == 1:
+                armed["fired"] = True
+                armed["site"] = getattr(f, "name", None) or getattr(getattr(f, "func", None), "qualname", None) or repr(f)[:40]
+                raise PyRaise(Obj(ex.interp.builtins["KeyboardInterrupt"], {"args": ()}))
+
+        def on_body(ex):
+            armed["on"] = True
+            ex.ctx.ghost["generic_index"] = ex.ctx.ghost["loop_index"]
+        it.loop_specs[(q, 2)] = LoopSpec(inv, havoc, on_body=on_body)  # loop #2 in source order: the sampling loop
+        it.call_hook = hook
+        kw = dict(trace_funcs=w.trace_funcs, chain_traces=w.chain_traces, chain_stats=w.chain_stats, chain_index=0,
+                  sampling_index_offset=off, monitor_stats=w.monitor, adapters=w.adapters)
+        ended_in_body = False
+        try:
+            try:
+                res = w.ex.call(w.mod.resolve("_sample_chain", ctx), [w.init_state, chain_it, w.rng, w.transitions], kw)
+            except PyRaise as pr:
+                ctx.run.ob(P + "/returns-normally", core.FAILED, "pyvc",
+                           detail=f"{exc_name(pr.exc)} escaped _sample_chain (interrupt at {armed.get('site')})" if armed["fired"] else f"{exc_name(pr.exc)} {pr.exc.attrs.get('args')} escaped")
+                return
+            except PathEnd:
+                ended_in_body = True
+        finally:
+            it.loop_specs.pop((q, 2), None)
+            it.call_hook = None
+        if ended_in_body:
+            check_iteration(ctx, w, off)
+            return
+        state, adapter_states, exception = res
+        if armed["fired"]:
+            # ---- C15: interrupted in the generic iteration ----------------------------------------------------------
+            ok = isinstance(exception, Obj) and exception.cls.name == "KeyboardInterrupt"
+            ctx.run.ob(P + "/interrupt-is-returned-not-raised", core.DISCHARGED if ok else core.FAILED, "pyvc",
+                       detail="" if ok else f"exception slot = {exception}", text="an interrupt at any call site is returned as the third output")
+            valid = any(state is s for s in w.states)
+            ctx.run.ob(P + "/interrupted-state-is-a-complete-chain-state", core.DISCHARGED if valid else core.FAILED, "pyvc",
+                       detail="" if valid else "returned state is not the initial state nor a state returned by a transition",
+                       text="the state returned after an interrupt is the initial state or a state returned by some transition")
+            flushed = all(a.flushed >= 1 for a in w.all_arrays) if mm else True
+            ctx.run.ob(P + "/flush-after-interrupt", core.DISCHARGED if flushed else core.FAILED, "pyvc",
+                       detail="" if flushed else "memory-mapped arrays not flushed on the interrupt path")
+            ok_exit = chain_it.exited == chain_it.entered == 1
+            ctx.run.ob(P + "/iterator-context-closed", core.DISCHARGED if ok_exit else core.FAILED, "pyvc")
+            check_iteration(ctx, w, off, interrupted_at=armed.get("site"))
+            return
+        # ---- normal completion (loop exit path) ----------------------------------------------------------------------
+        ok = exception is None
+        ctx.run.ob(P + "/no-exception-on-completion", core.DISCHARGED if ok else core.FAILED, "pyvc", detail="" if ok else str(exception))
+        last = w.states[-1] if len(w.states) > 1 else w.init_state
+        okf = state is ex_state(ctx, w)
+        ctx.run.ob(P + "/returns-state-after-last-iteration", core.DISCHARGED if okf else core.FAILED, "pyvc",
+                   detail="" if okf else "returned state is not the loop-carried chain state",
+                   text="the returned final state is the state after the last iteration")
+        if mm:
+            flushed = all(a.flushed >= 1 for a in w.all_arrays)
+            ctx.run.ob(P + "/flush-on-completion", core.DISCHARGED if flushed else core.FAILED, "pyvc", detail="" if flushed else "memmaps not flushed")
+        if with_ad:
+            inits = [e for e in w.log if e[0] == "initialize"]
+            oki = [e[1] for e in inits] == ["adapterA", "adapterB"] and all(e[2] is w.init_state and e[3] is w.transitions["integration_transition"] for e in inits)
+            ctx.run.ob(P + "/adapters-initialised-once-with-initial-state", core.DISCHARGED if oki else core.FAILED, "pyvc", detail="" if oki else str(inits))
+            oks = list(adapter_states) == ["integration_transition"] and [a["adapter"] for a in adapter_states["integration_transition"]] == ["adapterA", "adapterB"]
+            ctx.run.ob(P + "/adapter-states-returned-per-transition", core.DISCHARGED if oks else core.FAILED, "pyvc", detail="" if oks else str(adapter_states))
+        else:
+            oke = adapter_states == {}
+            ctx.run.ob(P + "/no-adapter-states-without-adapters", core.DISCHARGED if oke else core.FAILED, "pyvc", detail="" if oke else str(adapter_states))
+
+    def ex_state(ctx, w):
+        # on the loop-exit path the loop-carried `state` is either the init state (n_iter == 0) or the havoc'd earlier state
+        return w.states[-1] if len(w.states) > 1 else w.init_state
+    it.explore(h, "_sample_chain", roots=roots)
 
 
 def c16_obligations(run, tier):
-    pass
+    from . import samplers_stage
+    samplers_stage.stage_loop(run, "C16")
